@@ -255,6 +255,19 @@ def fingerprint(obj, label_of=None, _depth=0, _seen=None):
     return ("obj", type(obj).__name__)
 
 
+class FingerprintTooFine(Exception):
+    """the structural picture of the real object keeps histories apart that
+    the reference merges, many times over (it contains values that differ from
+    run to run: ids, counters, time stamps): the search falls back to the
+    reference state alone"""
+
+
+def fp_guard(n_states, n_ref_states, factor=8, slack=200):
+    if n_states > factor * max(n_ref_states, 1) + slack:
+        raise FingerprintTooFine("%d states for %d reference states"
+                                 % (n_states, n_ref_states))
+
+
 class _Guarded:
     """picklable wrapper: run one pool task under a generous time limit, so
     that a library call that never returns ends as a reported violation and
